@@ -33,7 +33,7 @@ WRAPFLAGS_A := $(foreach s,$(WRAP_COMMON),-Wl$(comma)--wrap=$(s))
 WRAPFLAGS_T := $(foreach s,$(WRAP_T),-Wl$(comma)--wrap=$(s))
 
 AFLAGS := $(STD) $(OPT) $(GUARD) $(INC) $(WARN) -fsanitize=address -DVERIF_FLAVOUR='"A"' -DVERIF_ASAN=1
-TFLAGS := $(STD) $(OPT) $(GUARD) $(INC) $(WARN) -fsanitize=thread -DVERIF_FLAVOUR='"T"'
+TFLAGS := $(STD) $(OPT) -fwrapv $(GUARD) $(INC) $(WARN) -fsanitize=thread -DVERIF_FLAVOUR='"T"'
 
 all: $(B)/simcheck-A $(B)/simcheck-T
 
